@@ -347,3 +347,8 @@ class _Col:
 
 fu.ensures("one_per_condition", lambda a, ret, st: [("parent", same_obj(G(ret, "screen"), a.screen))] +
            unique_rows_mask(G(ret, "selection_vector"), _cond_cols(a.screen), nrows(a.screen)))
+
+# (contracts defined after the first loop above: same policy)
+for _q, _c in list(_R.items()):
+    if _q.startswith("batchie.data.") and _c.apply is None and not _c.trusted:
+        _c.inline = True
